@@ -552,7 +552,9 @@ func newIOConn(rwc io.ReadWriteCloser) *ioConn {
 				if n, readErr := dec.Buffered().Read(tr[:]); n > 0 {
 					// If read byte is not a newline, it is an error.
 					// Support both Unix (\n) and Windows (\r\n) line endings.
-					if tr[0] != '\n' && tr[0] != '\r' {
+					// Blanks are insignificant whitespace to JSON (the decoder
+					// skips them in front of the next value), not data.
+					if tr[0] != '\n' && tr[0] != '\r' && tr[0] != ' ' && tr[0] != '\t' {
 						err = fmt.Errorf("invalid trailing data at the end of stream")
 					}
 				} else if readErr != nil && readErr != io.EOF {
